@@ -46,6 +46,10 @@ type schedule struct {
 	ID    int        `json:"id"`
 	Steps []label    `json:"steps"`
 	Final finalState `json:"final"`
+	// long-stall concretisation: before step StallAt (a WriteDone) the driver lets StallMs of real time pass,
+	// i.e. the browser of that client does not drain its socket for that long while a delivery is pending
+	StallAt int `json:"stall_at"`
+	StallMs int `json:"stall_ms"`
 }
 
 var (
@@ -455,6 +459,9 @@ func replayMain(args []string) {
 		at := -1
 		for k, l := range s.Steps {
 			emit(map[string]any{"kind": "step", "i": i, "k": k})
+			if s.StallMs > 0 && k == s.StallAt {
+				time.Sleep(time.Duration(s.StallMs) * time.Millisecond)
+			}
 			if mm = w.step(l); mm != nil {
 				at = k
 				break
